@@ -8,7 +8,7 @@ from stix2.datastore import filesystem as F
 from stix2.datastore import memory as M
 from stix2.datastore.filters import Filter
 
-from engine.hlib import Native, Part, TIER, V, pick
+from engine.hlib import Native, Part, TIER, V, pick, pickb
 from props import fakefs
 
 PARTNO = Part.index
@@ -280,5 +280,50 @@ def run_subms(i, mods, forms):
             if g is None or inst(g["modified"]) != max(seen):
                 return False
         return True
+    finally:
+        F.os, F.io = saved
+
+
+# ---- versions whose modified times are the two readings of an ambiguous local time (same local fields, fold 0 / 1: one hour apart)
+def ambiguous_local_versions(order: bool, form: int) -> bool:
+    """
+    pre: 0 <= form <= 1
+    post: _
+    """
+    order, form = pickb(order), pick(form, 2)
+    with Native():
+        ok = run_fold_case(order, form)
+    V.reached()
+    return ok
+
+
+def run_fold_case(order, form):
+    import datetime as dt
+    from zoneinfo import ZoneInfo
+    from stix2.datastore import CompositeDataSource
+    from stix2.utils import deduplicate
+    berlin = ZoneInfo("Europe/Berlin")
+    mk = lambda name, fold: stix2.v21.Identity(id=IDS[0], name=name, identity_class="individual", created=dt.datetime(2020, 1, 1, tzinfo=dt.timezone.utc),   # noqa: E731
+                                               modified=dt.datetime(2020, 10, 25, 2, 30, tzinfo=berlin, fold=fold))
+    a, b = mk("earlier", 0), mk("later", 1)
+    adds = [a, b] if order else [b, a]
+    if form == 1:
+        adds = [json.loads(x.serialize()) for x in adds]
+    ffs = fakefs.FakeFS()
+    saved = fakefs.install(F, ffs)
+    try:
+        fstore, mstore = F.FileSystemStore("/fs"), M.MemoryStore()
+        parts = [M.MemorySource([adds[0]]), M.MemorySource([adds[1]])]
+        comp = CompositeDataSource()
+        comp.add_data_sources(parts)
+        for x in adds:
+            fstore.add(x)
+            mstore.add(x)
+        for s in (fstore, mstore, comp):
+            if sorted(o["name"] for o in s.all_versions(IDS[0])) != ["earlier", "later"] or s.get(IDS[0])["name"] != "later":
+                return False
+            if sorted(o["name"] for o in s.query([Filter("id", "=", IDS[0])])) != ["earlier", "later"]:
+                return False
+        return len(deduplicate([a, b, a])) == 2
     finally:
         F.os, F.io = saved
